@@ -19,7 +19,7 @@ LEVEL_NOTE = ("Trusted: Lean kernel (+ standard axioms); hand models (tied by co
               "offsets is C04's theorem; float accumulate (global scan minus offset is inexact) is known finding F07b, judged with an "
               "error bound relative to the global running sum; numpy's NaN ordering in sort.")
 TECHNIQUE = "Lean 4 proof of global-scan tricks = per-row numpy semantics; numpy-evaluated correspondence"
-DESIGN_REF = "6.7"
+DESIGN_REF = "7"
 LEAN_MODULES = ["NpsVerif.Props.C07Scan", "NpsVerif.Props.C07Sort"]
 KERNELS = ()
 RULE = ("cases = ragged shape (exhaustive <=3 rows x <=3 cells + random up to 12 rows) x function (cumsum, add/subtract/xor.accumulate, "
